@@ -221,8 +221,8 @@ def ctx_to_coq(ctx, h: int) -> str:
     def in_hole(n):
         return isinstance(n, ast.Pass) and lo <= n.lineno <= hi_l
 
-    def contains(n):
-        return getattr(n, "lineno", 10 ** 9) <= lo and getattr(n, "end_lineno", -1) >= hi_l and not in_hole(n)
+    def contains(n):      # by descent, not by position: match_case, withitem ... carry no position
+        return not in_hole(n) and any(in_hole(x) for x in ast.walk(n))
 
     def nodes_term(ns, pl, pc, bl, bc, roles=None):
         return coq_list(["(" + conv(n, (roles[i] if roles else "body"), pl, pc, bl, bc) + ")" for i, n in enumerate(ns)])
@@ -258,9 +258,9 @@ def ctx_to_coq(ctx, h: int) -> str:
         a = min(i for i, (f, _) in enumerate(kids) if f == f0)
         b = max(i for i, (f, _) in enumerate(kids) if f == f0) + 1
         region = [k for _, k in kids[a:b]]
-        wl, wc = w.lineno, w.col_offset
-        nbl, nbc = region[0].lineno - 1, region[0].col_offset
-        info = conv_info(w, role, bl, bc)
+        wl, wc = getattr(w, "lineno", pl), getattr(w, "col_offset", pc)
+        nbl, nbc = getattr(region[0], "lineno", wl) - 1, getattr(region[0], "col_offset", wc)
+        info = conv_info(w, role, bl, bc, wl, wc)
         pre = coq_list(["(" + conv(k, f, wl, wc, bl, bc) + ")" for f, k in kids[:a]])
         post_nodes = ["(" + conv(k, f, wl, wc, bl, bc) + ")" for f, k in kids[b:]]
         post_nodes += _extra_terms(w, wl, wc, bl, bc)
@@ -270,14 +270,16 @@ def ctx_to_coq(ctx, h: int) -> str:
     return mk_list(list(mod.body), ["body"] * len(mod.body), 0, 0, 0, 0), (hole_role[-1] if hole_role else "body")
 
 
-def conv_info(n, role, bl, bc) -> str:
+def conv_info(n, role, bl, bc, l=None, c=None) -> str:
     sval = ""
     for f in n._fields:
         v = getattr(n, f, None)
         if isinstance(v, str):
             sval = v
             break
-    return f"I {coq_string(role)} {coq_string(type(n).__name__)} {n.lineno - bl} {n.col_offset - bc} {coq_string(sval)} \"\""
+    l = n.lineno if l is None else l
+    c = n.col_offset if c is None else c
+    return f"I {coq_string(role)} {coq_string(type(n).__name__)} {l - bl} {c - bc} {coq_string(sval)} \"\""
 
 
 def _extra_terms(n, l, c, bl, bc):
